@@ -72,5 +72,31 @@ def transposeInto [Zero K] (A C : Csc K) : Csc K :=
   let out2 := out1.setIfInBounds 0 0
   { C with outer := out2, inner := st.2.1, vals := st.2.2 }
 
+
+/-- the binary search of `is_transpose_pattern`: first position in `[lo, hi)` whose row index is not below `j` -/
+def bsearch (inner : Array Nat) (j lo hi : Nat) : Nat :=
+  if h : lo < hi then
+    let mid := lo + (hi - lo) / 2
+    if inner.getD mid 0 < j then bsearch inner j (mid + 1) hi else bsearch inner j lo mid
+  else lo
+termination_by hi - lo
+decreasing_by
+  all_goals simp_wf
+  · omega
+  · have : (hi - lo) / 2 < hi - lo := Nat.div_lt_self (by omega) (by omega)
+    omega
+
+/-- `is_transpose_pattern(A, C)`: dimensions and entry counts agree, every column of `A` has strictly increasing rows, and every
+    stored entry `(i, j)` of `A` is found (binary search) as row `j` in column `i` of `C` -/
+def isTransposePattern (A C : Csc K) : Bool :=
+  if A.cols ≠ C.rows || A.rows ≠ C.cols || A.outer.getD A.cols 0 ≠ C.outer.getD C.cols 0 then false
+  else
+    (List.range A.cols).all fun j =>
+      (A.colRange j).all fun k =>
+        let i := A.inner.getD k 0
+        !(decide (A.outer.getD j 0 < k) && decide (i ≤ A.inner.getD (k - 1) 0)) &&
+        (let lo := bsearch C.inner j (C.outer.getD i 0) (C.outer.getD (i + 1) 0)
+         !(lo == C.outer.getD (i + 1) 0 || C.inner.getD lo 0 != j))
+
 end Csc
 end Piqp
